@@ -120,9 +120,11 @@ type Stats struct {
 	Asserts                                         map[string]int // assertion id -> times checked (unsat)
 	MaxDepth                                        int
 	States                                          int
+	Funcs                                           map[string]int // repository function -> times entered (the code that was encoded)
 }
 
 type Machine struct {
+	repoFn map[*ssa.Function]string
 	L      *Loaded
 	H      *Harness
 	tt     *TermTable
@@ -214,6 +216,7 @@ func NewMachine(L *Loaded, H *Harness, pool *WorkPool) (*Machine, error) {
 	m.stats.Unsupported = map[string]int{}
 	m.stats.Covers = map[string]int{}
 	m.stats.Asserts = map[string]int{}
+	m.stats.Funcs = map[string]int{}
 	m.stubFns = map[string]*ssa.Function{}
 	for callee, hf := range H.Stubs {
 		pkg := H.Fn.Pkg
